@@ -5026,7 +5026,7 @@ class Symbol:
                         self._has_active_indirect_set = False
                         num2str = str if base == 10 else hex
                         log.note(
-                            f"indirectly set value {candidate_val.str_value} on "
+                            f"indirectly set value {escape(candidate_val.str_value)} on "
                             f"{escape(self.name_and_loc)} (by {escape(src.name_and_loc)}) "
                             f"is not a valid base {base} number."
                         )
@@ -5067,7 +5067,7 @@ class Symbol:
                             self._write_to_conf = True
                         else:
                             log.note(
-                                f"indirectly set value {candidate_val.str_value} on "
+                                f"indirectly set value {escape(candidate_val.str_value)} on "
                                 f"{escape(self.name_and_loc)} (by {escape(src.name_and_loc)}) "
                                 f"is not a valid base {base} number."
                             )
@@ -5190,7 +5190,7 @@ class Symbol:
                         # An unusable literal is no active 'set': the flag must not keep an earlier evaluation's value
                         self._has_active_indirect_set = False
                         log.note(
-                            f"indirectly set value {candidate_val.str_value} on "
+                            f"indirectly set value {escape(candidate_val.str_value)} on "
                             f"{escape(self.name_and_loc)} (by {escape(src.name_and_loc)}) is not a valid float."
                         )
                     break
@@ -5230,7 +5230,7 @@ class Symbol:
                             self._write_to_conf = True
                         else:
                             log.note(
-                                f"indirectly set value {candidate_val.str_value} on "
+                                f"indirectly set value {escape(candidate_val.str_value)} on "
                                 f"{escape(self.name_and_loc)} (by {escape(src.name_and_loc)}) is not a valid float."
                             )
                         break
